@@ -4,6 +4,7 @@ pub mod adapter;
 pub mod engine;
 pub mod golden;
 pub mod hexser;
+pub mod ops;
 pub mod refmodel;
 pub mod src;
 pub mod timer;
